@@ -64,15 +64,16 @@ type Ev struct {
 }
 
 type Observed struct {
-	Invoked bool       `json:"invoked"`
-	ReadHex string     `json:"read_hex"`
-	Intr    *IntrObs   `json:"intr,omitempty"`
-	Trace   []Ev       `json:"trace"`
-	Status  int        `json:"status"`
-	Headers [][]string `json:"headers"`
-	BodyHex string     `json:"body_hex"`
-	Infos   []int      `json:"infos"`
-	Refused int        `json:"refused_writes,omitempty"` // non-empty writes the downstream writer refused (not compared with the model)
+	Invoked   bool       `json:"invoked"`
+	ReadHex   string     `json:"read_hex"`
+	Intr      *IntrObs   `json:"intr,omitempty"`
+	Trace     []Ev       `json:"trace"`
+	Status    int        `json:"status"`
+	Headers   [][]string `json:"headers"`
+	BodyHex   string     `json:"body_hex"`
+	Infos     []int      `json:"infos"`
+	Refused   int        `json:"refused_writes,omitempty"` // non-empty writes the downstream writer refused (not compared with the model)
+	ClientErr string     `json:"client_error,omitempty"`   // the HTTP client failed (reported with status 0: never equal to the model)
 }
 
 type IntrObs struct {
@@ -459,6 +460,7 @@ type clientResult struct {
 	headers http.Header
 	body    []byte
 	infos   []int
+	err     string
 }
 
 func (s *server) do(c *Case, h http.Handler) (*clientResult, error) {
@@ -497,7 +499,9 @@ func (s *server) do(c *Case, h http.Handler) (*clientResult, error) {
 	res.headers = resp.Header
 	res.body, err = io.ReadAll(resp.Body)
 	if err != nil {
-		return nil, err
+		// a broken response stream is an observation, not a harness failure
+		res.err = "reading the response body: " + err.Error()
+		res.status = 0
 	}
 	return res, nil
 }
@@ -570,14 +574,16 @@ func exchange(c *Case, s *server, wrapped bool) (*runOut, error) {
 			*hr = *hr2
 			cr, err = s.do(c, outer)
 			if err != nil {
-				return nil, err
+				cr = &clientResult{status: 0, headers: http.Header{}, err: err.Error()}
 			}
 		}
 		// the client may have the whole response before the handler goroutine has returned
 		select {
 		case <-done:
 		case <-time.After(10 * time.Second):
-			return nil, fmt.Errorf("handler did not return")
+			if cr.err == "" {
+				return nil, fmt.Errorf("handler did not return")
+			}
 		}
 	} else {
 		body := unhex(c.BodyHex)
@@ -625,6 +631,7 @@ func exchange(c *Case, s *server, wrapped bool) (*runOut, error) {
 		o.Trace = []Ev{}
 	}
 	o.Status = cr.status
+	o.ClientErr = cr.err
 	// client headers: tracked keys; Content-Length is net/http's own on a real connection;
 	// a Content-Type the writer did not get from the middleware was sniffed by the server
 	ct := map[string]bool{}
@@ -657,9 +664,9 @@ type printer struct {
 }
 
 // the shard prelude opens string_scope after N_scope: no %string / %N suffixes are needed
-func hxb(b []byte) string  { return `(hx "` + hex.EncodeToString(b) + `")` }
-func hxs(s string) string  { return hxb([]byte(s)) }
-func num(n int) string     { return fmt.Sprintf("%d", n) }
+func hxb(b []byte) string { return `(hx "` + hex.EncodeToString(b) + `")` }
+func hxs(s string) string { return hxb([]byte(s)) }
+func num(n int) string    { return fmt.Sprintf("%d", n) }
 
 func (p *printer) bs(b []byte) string {
 	if len(b) <= 24 {
@@ -894,7 +901,7 @@ func Run(cfg vh.Config) (*vh.Result, error) {
 				return nil, err
 			}
 		}
-		n := cfg.Pick(700, 40000)
+		n := cfg.Pick(700, 24000)
 		for i := 0; i < n; i++ {
 			c := genCase(rng, cfg, i)
 			if err := runCase(c); err != nil {
